@@ -1,14 +1,358 @@
+// Command verifcheck decides the structural obligations of one given property on the
+// current source of reduction-dev/reduction. See /verif/DESIGN.md.
+//
+//	verifcheck -property C07 -tier quick|thorough
+//	verifcheck -replay evidence/replays/C07-1.json
+//	verifcheck -list
 package main
 
 import (
+	"encoding/json"
+	"flag"
 	"fmt"
+	"os"
+	"path/filepath"
+	"sort"
+	"strconv"
+	"strings"
 	"time"
 
 	"verif/checker/internal/prog"
+	"verif/checker/internal/rules"
 )
 
+type finding struct {
+	props    []string
+	identity string
+	what     string
+}
+
+func loadKnown(path string) ([]finding, error) {
+	b, err := os.ReadFile(path)
+	if err != nil {
+		if os.IsNotExist(err) {
+			return nil, nil
+		}
+		return nil, err
+	}
+	var out []finding
+	for _, line := range strings.Split(string(b), "\n") {
+		line = strings.TrimSpace(line)
+		if line == "" || strings.HasPrefix(line, "#") || strings.HasPrefix(line, "fixed:") {
+			continue // fixed entries suppress nothing
+		}
+		// finding: property=C09,C06 obligation=<identity> :: <what fails>
+		if !strings.HasPrefix(line, "finding:") {
+			return nil, fmt.Errorf("known_findings: unrecognised line %q", line)
+		}
+		rest := strings.TrimSpace(strings.TrimPrefix(line, "finding:"))
+		head, what, ok := strings.Cut(rest, "::")
+		if !ok {
+			return nil, fmt.Errorf("known_findings: missing '::' in %q", line)
+		}
+		var f finding
+		f.what = strings.TrimSpace(what)
+		for _, fld := range strings.Fields(head) {
+			switch {
+			case strings.HasPrefix(fld, "property="):
+				f.props = strings.Split(strings.TrimPrefix(fld, "property="), ",")
+			case strings.HasPrefix(fld, "obligation="):
+				f.identity = strings.TrimPrefix(fld, "obligation=")
+			}
+		}
+		if len(f.props) == 0 || f.identity == "" {
+			return nil, fmt.Errorf("known_findings: incomplete line %q", line)
+		}
+		out = append(out, f)
+	}
+	return out, nil
+}
+
+type replayFile struct {
+	Property   string          `json:"property"`
+	Obligation string          `json:"obligation"`
+	Identity   string          `json:"identity"`
+	Violation  rules.Violation `json:"violation"`
+	Rule       string          `json:"rule"`
+	Desc       string          `json:"desc"`
+	Replay     string          `json:"replay_cmd"`
+}
+
 func main() {
-	t := time.Now()
-	p := prog.Load("/repo", "/verif/bin")
-	fmt.Println(len(p.Pkgs), p.NumFuncs, time.Since(t))
+	property := flag.String("property", "", "property id (C01..C20)")
+	tier := flag.String("tier", "", "quick or thorough")
+	replay := flag.String("replay", "", "replay file to re-evaluate")
+	repo := flag.String("repo", "/repo", "repository root")
+	verif := flag.String("verif", "", "verif root (default: parent of the executable's directory)")
+	list := flag.Bool("list", false, "list obligations")
+	flag.Parse()
+
+	if *verif == "" {
+		exe, err := os.Executable()
+		if err == nil {
+			*verif = filepath.Dir(filepath.Dir(exe))
+		} else {
+			*verif = "/verif"
+		}
+	}
+	if *tier == "" {
+		*tier = os.Getenv("VERIF_TIER")
+	}
+	if *tier == "" {
+		*tier = "quick"
+	}
+	if *tier != "quick" && *tier != "thorough" {
+		fmt.Println("ERROR bad tier", *tier)
+		os.Exit(2)
+	}
+	seed := 0
+	if s := os.Getenv("VERIF_SEED"); s != "" {
+		seed, _ = strconv.Atoi(s)
+	}
+
+	if *list {
+		for _, o := range rules.All() {
+			fmt.Printf("%-8s %-28s %-20s %s\n", o.ID, o.Template, strings.Join(o.Props, ","), o.Desc)
+		}
+		return
+	}
+
+	code := 0
+	func() {
+		defer func() {
+			if e := recover(); e != nil {
+				if ee, ok := e.(prog.ErrorExit); ok {
+					fmt.Println("ERROR", ee.Msg)
+				} else {
+					fmt.Println("ERROR panic:", e)
+				}
+				code = 2
+			}
+		}()
+		if *replay != "" {
+			code = doReplay(*repo, *verif, *replay)
+			return
+		}
+		if *property == "" {
+			fmt.Println("ERROR -property required")
+			code = 2
+			return
+		}
+		code = doProperty(*repo, *verif, *property, *tier, seed)
+	}()
+	os.Exit(code)
+}
+
+func doReplay(repo, verif, path string) int {
+	b, err := os.ReadFile(path)
+	if err != nil {
+		fmt.Println("ERROR", err)
+		return 2
+	}
+	var rf replayFile
+	if err := json.Unmarshal(b, &rf); err != nil {
+		fmt.Println("ERROR", err)
+		return 2
+	}
+	o := rules.ByID(rf.Obligation)
+	if o == nil {
+		fmt.Println("ERROR unknown obligation", rf.Obligation)
+		return 2
+	}
+	p := prog.Load(repo, filepath.Join(verif, "bin"))
+	res := rules.Eval(p, "thorough", o)
+	for _, e := range res.Errors {
+		fmt.Println("ERROR", o.ID, e)
+	}
+	if len(res.Errors) > 0 {
+		return 2
+	}
+	for _, v := range res.Violations {
+		if v.Identity == rf.Identity {
+			fmt.Printf("VIOLATION property=%s replay=%s\n", rf.Property, path)
+			printViolation(v, o)
+			return 1
+		}
+	}
+	fmt.Printf("replay: obligation %s no longer reports %s on the current tree\n", o.ID, rf.Identity)
+	return 0
+}
+
+func printViolation(v rules.Violation, o *rules.Obligation) {
+	fmt.Printf("  %s: %s [%s] %s\n", v.Pos, v.Identity, o.Template, v.Msg)
+	fmt.Printf("    rule: %s\n", o.Desc)
+	if len(v.Trace) > 0 {
+		fmt.Printf("    path: %s\n", strings.Join(v.Trace, " -> "))
+	}
+}
+
+func doProperty(repo, verif, property, tier string, seed int) int {
+	start := time.Now()
+	info, ok := rules.Properties[property]
+	if !ok {
+		fmt.Println("ERROR unknown property", property)
+		return 2
+	}
+	obs := rules.For(property)
+	if len(obs) == 0 {
+		fmt.Println("ERROR no obligations registered for", property)
+		return 2
+	}
+	known, err := loadKnown(filepath.Join(verif, "known_findings.txt"))
+	if err != nil {
+		fmt.Println("ERROR", err)
+		return 2
+	}
+	p := prog.Load(repo, filepath.Join(verif, "bin"))
+	fmt.Printf("analysed: %d packages, %d declared functions (all type-checked, generated protobuf code via overlay)\n", len(p.Pkgs), p.NumFuncs)
+
+	evDir := filepath.Join(verif, "evidence")
+	repDir := filepath.Join(evDir, "replays")
+	os.MkdirAll(repDir, 0o755)
+	// remove stale replay files of this property
+	if old, _ := filepath.Glob(filepath.Join(repDir, property+"-*.json")); len(old) > 0 {
+		for _, f := range old {
+			os.Remove(f)
+		}
+	}
+
+	type sample struct {
+		Obligation string   `json:"obligation"`
+		Template   string   `json:"template"`
+		Desc       string   `json:"establishes"`
+		Verdict    string   `json:"verdict"`
+		Sites      int      `json:"sites"`
+		SiteSample []string `json:"site_sample,omitempty"`
+		States     int      `json:"path_states,omitempty"`
+		Steps      int      `json:"path_steps,omitempty"`
+		Notes      []string `json:"notes,omitempty"`
+		Findings   []string `json:"findings,omitempty"`
+	}
+	var samples []sample
+	nErr, nViol, nKnown, discharged, evaluated, nontrivial, totalSites := 0, 0, 0, 0, 0, 0, 0
+	nrep := 0
+	usedKnown := map[int]bool{}
+	for _, o := range obs {
+		if o.Thorough && tier != "thorough" {
+			continue
+		}
+		evaluated++
+		res := rules.Eval(p, tier, o)
+		s := sample{Obligation: o.ID, Template: o.Template, Desc: o.Desc, Sites: len(res.Sites), States: res.States, Steps: res.Steps, Notes: res.Notes}
+		for i, st := range res.Sites {
+			if i < 6 {
+				s.SiteSample = append(s.SiteSample, st)
+			}
+		}
+		totalSites += len(res.Sites)
+		if len(res.Sites) > 0 {
+			nontrivial++
+		}
+		verdict := "discharged"
+		for _, e := range res.Errors {
+			fmt.Printf("ERROR %s: %s\n", o.ID, e)
+			nErr++
+			verdict = "error"
+		}
+		for _, v := range res.Violations {
+			matched := false
+			for i, k := range known {
+				if k.identity == v.Identity {
+					for _, kp := range k.props {
+						if kp == property {
+							matched = true
+						}
+					}
+					if matched {
+						usedKnown[i] = true
+						fmt.Printf("KNOWN-FINDING: property=%s %s: %s\n", property, v.Identity, k.what)
+						nKnown++
+						s.Findings = append(s.Findings, "known: "+v.Identity)
+						break
+					}
+				}
+			}
+			if matched {
+				if verdict == "discharged" {
+					verdict = "known-finding"
+				}
+				continue
+			}
+			nrep++
+			nViol++
+			verdict = "violated"
+			rel := filepath.Join("evidence", "replays", fmt.Sprintf("%s-%d.json", property, nrep))
+			rf := replayFile{Property: property, Obligation: o.ID, Identity: v.Identity, Violation: v, Rule: o.Template, Desc: o.Desc,
+				Replay: "./bin/verifcheck -replay " + rel}
+			b, _ := json.MarshalIndent(rf, "", " ")
+			os.WriteFile(filepath.Join(verif, rel), b, 0o644)
+			fmt.Printf("VIOLATION property=%s replay=%s\n", property, rel)
+			printViolation(v, o)
+			s.Findings = append(s.Findings, "VIOLATION: "+v.Identity+" @ "+v.Pos+": "+v.Msg)
+		}
+		if verdict == "discharged" {
+			discharged++
+		}
+		s.Verdict = verdict
+		samples = append(samples, s)
+	}
+	for i, k := range known {
+		if usedKnown[i] {
+			continue
+		}
+		for _, kp := range k.props {
+			if kp == property {
+				fmt.Printf("note: known finding %s is no longer reported on this tree (entry is stale, nothing suppressed)\n", k.identity)
+			}
+		}
+	}
+
+	sort.Slice(samples, func(i, j int) bool { return samples[i].Obligation < samples[j].Obligation })
+	wall := time.Since(start).Seconds()
+	ev := map[string]any{
+		"property_id": property,
+		"tier":        tier,
+		"seed":        seed,
+		"level":       "other",
+		"coverage": map[string]any{
+			"explanation": "Static analysis of /repo's current source (no execution). Decided: " + info.Decided +
+				" NOT decided by this check: " + info.NotDecided,
+			"obligations":            evaluated,
+			"discharged":             discharged,
+			"known_findings_printed": nKnown,
+			"evaluations":            totalSites,
+			"distinct_nontrivial":    nontrivial,
+			"rule": "evaluations = sites analysed (call sites, field accesses, function paths, orderings, codec tokens) summed over the property's obligations; " +
+				"distinct_nontrivial = obligations that resolved their anchors and analysed at least one site",
+			"samples":      samples,
+			"packages":     len(p.Pkgs),
+			"functions":    p.NumFuncs,
+			"checker_cmd":  fmt.Sprintf("./bin/verifcheck -property %s -tier %s", property, tier),
+			"trusted_base": []string{"go/types and go/ast of go1.26.8", "golang.org/x/tools v0.50.0 go/packages", "protoc-gen-go v1.36.3 and protoc-gen-connect-go v1.18.1 (regenerated protobuf code)", "pbgen (this repository's .proto subset parser)", "frozen rule tables in checker/internal/rules"},
+			"errors":       nErr,
+			"exhaustive":   false,
+			"not_decided":  info.NotDecided,
+		},
+		"assumptions": []string{
+			"each obligation is a necessary condition of the property, not the property itself",
+			"goroutine roots are go statements, RPC handler methods, and the spawner table in DESIGN.md section 4",
+			"no unsafe / reflection in anchored code",
+		},
+		"wall_s":     wall,
+		"violations": nViol,
+	}
+	b, _ := json.MarshalIndent(ev, "", " ")
+	if err := os.WriteFile(filepath.Join(evDir, property+".json"), b, 0o644); err != nil {
+		fmt.Println("ERROR writing evidence:", err)
+		return 2
+	}
+	fmt.Printf("%s tier=%s obligations=%d discharged=%d known=%d violations=%d errors=%d sites=%d wall=%.1fs\n",
+		property, tier, evaluated, discharged, nKnown, nViol, nErr, totalSites, wall)
+	switch {
+	case nViol > 0:
+		return 1
+	case nErr > 0:
+		return 2
+	}
+	return 0
 }
